@@ -67,6 +67,10 @@ pub enum RateArg {
 #[derive(Clone, Debug, Serialize, Deserialize, PartialEq)]
 pub struct RateCase {
     pub arg: RateArg,
+    /// Some(d): a valid segment left by an earlier run of the daemon (generation 8, a record with
+    /// max_drift_ppb d) lies at the segment path when the daemon starts (a warm restart)
+    #[serde(default)]
+    pub leftover_drift: Option<u32>,
 }
 
 #[derive(Debug, Clone, PartialEq)]
@@ -78,7 +82,40 @@ pub enum RateObs {
     Nothing,
 }
 
-pub fn run_daemon_for_rate(arg: &RateArg) -> Result<RateObs, String> {
+/// Like `in_private_run`, and a file with `content` is created at /run/clockbound/shm before the
+/// program starts (only raw system calls after the fork).
+fn in_private_run_with_segment(cmd: &mut Command, content: Vec<u8>) -> &mut Command {
+    unsafe {
+        cmd.pre_exec(move || {
+            if libc::unshare(libc::CLONE_NEWNS) != 0 {
+                return Err(std::io::Error::last_os_error());
+            }
+            if libc::mount(std::ptr::null(), b"/\0".as_ptr().cast(), std::ptr::null(), libc::MS_REC | libc::MS_PRIVATE, std::ptr::null()) != 0 {
+                return Err(std::io::Error::last_os_error());
+            }
+            if libc::mount(b"tmpfs\0".as_ptr().cast(), b"/run\0".as_ptr().cast(), b"tmpfs\0".as_ptr().cast(), 0, std::ptr::null()) != 0 {
+                return Err(std::io::Error::last_os_error());
+            }
+            if libc::mkdir(b"/run/clockbound\0".as_ptr().cast(), 0o755) != 0 {
+                return Err(std::io::Error::last_os_error());
+            }
+            let fd = libc::open(b"/run/clockbound/shm\0".as_ptr().cast(), libc::O_CREAT | libc::O_WRONLY | libc::O_TRUNC, 0o644 as libc::c_uint);
+            if fd < 0 {
+                return Err(std::io::Error::last_os_error());
+            }
+            let n = libc::write(fd, content.as_ptr().cast(), content.len());
+            libc::close(fd);
+            if n != content.len() as isize {
+                return Err(std::io::Error::from_raw_os_error(libc::EIO));
+            }
+            Ok(())
+        })
+    }
+}
+
+const LEFTOVER_GEN: u16 = 8;
+
+pub fn run_daemon_for_rate(arg: &RateArg, leftover_drift: Option<u32>) -> Result<RateObs, String> {
     if !std::path::Path::new(DAEMON_BIN).exists() {
         return Err(format!("{} not built (build.sh daemon)", DAEMON_BIN));
     }
@@ -93,13 +130,31 @@ pub fn run_daemon_for_rate(arg: &RateArg) -> Result<RateObs, String> {
         }
     }
     cmd.stdin(Stdio::null()).stdout(Stdio::null()).stderr(Stdio::null());
-    in_private_run(&mut cmd);
+    match leftover_drift {
+        Some(d) => {
+            let rec = Rec {
+                as_of_s: 5,
+                as_of_ns: 0,
+                void_s: 1005,
+                void_ns: 0,
+                bound: 12_345,
+                drift: d,
+                reserved: 0,
+                status: 1,
+            };
+            in_private_run_with_segment(&mut cmd, segment_bytes(&Hdr::valid(LEFTOVER_GEN), &rec));
+        }
+        None => {
+            in_private_run(&mut cmd);
+        }
+    }
     let mut child = cmd.spawn().map_err(|e| format!("cannot start the daemon in a private mount namespace: {}", e))?;
     let pid = child.id();
     let shm = ns_path(pid, "/run/clockbound/shm");
     let t0 = real_now();
     let mut seen: Vec<u32> = vec![];
-    let mut last_gen = 0u16;
+    // only what this daemon publishes counts, not the record it found
+    let mut last_gen = if leftover_drift.is_some() { LEFTOVER_GEN } else { 0u16 };
     // the second publication (1 s later) is awaited for one case in eight
     let want_two = hash_str(&format!("{:?}", arg)) % 8 == 0;
     let obs = loop {
@@ -147,7 +202,8 @@ fn c19_strategy() -> BoxedStrategy<RateCase> {
         1 => (u32::MAX as u64 + 1..u64::MAX).prop_map(RateArg::Num),
         1 => prop_oneof![Just("abc".to_string()), Just("-1".to_string()), Just("1.5".to_string()), Just("".to_string()), Just("1e3".to_string())].prop_map(RateArg::Text),
     ]
-    .prop_map(|arg| RateCase { arg })
+    .prop_flat_map(|arg| (Just(arg), prop_oneof![3 => Just(None), 1 => prop_oneof![Just(1000u32), Just(0u32), Just(50_000u32), any::<u32>()].prop_map(Some)]))
+    .prop_map(|(arg, leftover_drift)| RateCase { arg, leftover_drift })
     .boxed()
 }
 
@@ -173,7 +229,13 @@ fn check_c19_case(case: &RateCase, _env: &mut Env) -> Verdict {
             v.label("beyond-u32");
         }
     }
-    let obs = match run_daemon_for_rate(&case.arg) {
+    if case.leftover_drift.is_some() {
+        v.label("warm-restart-over-a-segment-of-another-run");
+        if case.leftover_drift != expect {
+            v.nontrivial = true;
+        }
+    }
+    let obs = match run_daemon_for_rate(&case.arg, case.leftover_drift) {
         Ok(o) => o,
         Err(m) => {
             v.fail(m);
@@ -214,7 +276,7 @@ impl Property for C19 {
     type Case = RateCase;
     const ID: &'static str = "C19";
     fn rule() -> String {
-        "cases = --max-drift-rate N for N from: absent; 0, 1, 50, 1000; 4294966..4294969 (last representable / first wrapping product); 2^k and 2^k +- 1; k*2^32/1000 + {0,1,2} (products that wrap to small values); uniform u32; uniform below 4294968; values above u32::MAX; non-numeric strings. Each case starts the real release clockbound binary (cargo build --release of /repo) in a private mount namespace with an empty /run (no chronyd: the first poll publishes at once), reads max_drift_ppb of the first publication (of the first two for one case in eight) at offset 56 through /proc/<pid>/root, or the exit status. Oracle: N*1000 representable (or absent -> 1000) => runs and every record carries exactly N*1000; otherwise exits non-zero without publishing. Non-trivial: N > 4294967 or within 2 of a power of two.".into()
+        "cases = --max-drift-rate N for N from: absent; 0, 1, 50, 1000; 4294966..4294969 (last representable / first wrapping product); 2^k and 2^k +- 1; k*2^32/1000 + {0,1,2} (products that wrap to small values); uniform u32; uniform below 4294968; values above u32::MAX; non-numeric strings. Each case starts the real release clockbound binary (cargo build --release of /repo) in a private mount namespace with an empty /run - or, one case in four, with a valid segment left by an earlier run whose record carries another drift rate - (no chronyd: the first poll publishes at once), reads max_drift_ppb of the first publication (of the first two for one case in eight) at offset 56 through /proc/<pid>/root, or the exit status. Oracle: N*1000 representable (or absent -> 1000) => runs and every record carries exactly N*1000; otherwise exits non-zero without publishing. Non-trivial: N > 4294967 or within 2 of a power of two.".into()
     }
     fn assumptions() -> Vec<String> {
         vec!["all 2^32 values are not run (a process start each); the arithmetic is piecewise uniform and the generator is built around its discontinuities".into()]
@@ -232,7 +294,7 @@ impl Property for C19 {
         check_c19_case(case, env)
     }
     fn floors() -> Vec<(&'static str, f64)> {
-        vec![("not-representable", 0.2), ("representable", 0.2), ("published", 0.2), ("near-power-of-two", 0.1)]
+        vec![("not-representable", 0.2), ("representable", 0.2), ("published", 0.2), ("near-power-of-two", 0.1), ("warm-restart-over-a-segment-of-another-run", 0.1)]
     }
     fn max_shrink_iters(_t: Tier) -> u32 {
         60
